@@ -134,7 +134,7 @@ def gen_probe_op(rng, trs_pool=None):
         return {"p": "trs_from", "tw": _gen_tw(rng), "kw": kw}
     if r < 0.80:
         return {"p": "trs_to_dict", "s": rng.choice(trs_pool),
-                "via": rng.choice(("func", "static", "obj"))}
+                "via": rng.choice(("func", "static", "obj", "func_obj"))}
     if r < 0.85:
         return {"p": "find_twprge", "text": corpus.gen_desc(rng),
                 "kw": rng.choice(({}, {"preprocess": True},
@@ -585,6 +585,8 @@ def _run_probe_op(pytrs, op, hooks=None):
     if p == "trs_to_dict":
         if op["via"] == "func":
             d = pytrs.trs_to_dict(op["s"])
+        elif op["via"] == "func_obj":
+            d = pytrs.trs_to_dict(pytrs.TRS(op["s"]))
         elif op["via"] == "static":
             d = pytrs.TRS.trs_to_dict(op["s"])
         else:
@@ -710,7 +712,7 @@ def _extract_record(pytrs, src, how):
             lambda: src.group_by("twprge"),
             lambda: list(src.iter_to_dict("lots", "qqs", "lot_acres")),
             lambda: src.tracts_to_dict("lot_acres", "w_flag_lines"),
-            lambda: src.group_by_nested(["twp"]),
+            lambda: src.group_by(["twp", "rge"]),
         )
         return choices[how % len(choices)]()
     if isinstance(src, pytrs.Tract):
@@ -725,6 +727,7 @@ def _extract_record(pytrs, src, how):
             lambda: pytrs.TRS.trs_to_dict(src),
             lambda: pytrs.trs_to_dict(src.trs),
             lambda: pytrs.TRS.trs_to_dict(src.trs),
+            lambda: pytrs.trs_to_dict(src),     # the function, given the object
         )
         return choices[how % len(choices)]()
     if isinstance(src, pytrs.TractList):
@@ -739,6 +742,7 @@ def _extract_record(pytrs, src, how):
             lambda: src.to_standard_list(),
             lambda: src.to_strings(),
             lambda: src.group_by("twprge"),
+            lambda: [pytrs.trs_to_dict(t) for t in src],
         )
         return choices[how % len(choices)]()
     if isinstance(src, (dict, list)):
